@@ -42,3 +42,24 @@ pub fn c04_trait_level_entry_points(pk: Pk, sig: Sig, msg: &[u8], dst: &[u8], ze
     let s5 = BlsSignaturePop__pop_prove(zero);
     assert(s1 is Err && s2 is Err && s3 is Err && s4 is Err && s5 is Err);
 }
+
+/// proofs of knowledge: identity commitment / response / key and the zero challenge are rejected,
+/// and the prover refuses identity or zero inputs
+pub fn c04_pok_rejects_identity_and_zero(p: &ProofOfKnowledge, pk: PublicKey, msg: &[u8], y: ProofCommitmentChallenge)
+    requires pok_u(*p).dl() == 0 || pok_v(*p).dl() == 0 || pk.0.dl() == 0 || y.0.val() == 0,
+{
+    let v = p.verify(pk, msg, y);
+    assert(v is Err);
+}
+pub fn c04_pok_timestamp_rejects_identity(p: &ProofOfKnowledgeTimestamp, pk: PublicKey, msg: &[u8], timeout: Option<u64>)
+    requires pok_u(p.proof).dl() == 0 || pok_v(p.proof).dl() == 0 || pk.0.dl() == 0,
+{
+    let v = p.verify(pk, msg, timeout);
+    assert(v is Err);
+}
+pub fn c04_pok_prover_refuses(c: ProofCommitment, x: ProofCommitmentSecret, y: ProofCommitmentChallenge, sig: Signature)
+    requires pc_point(c).dl() == 0 || sig_point(sig).dl() == 0 || x.0.val() == 0 || y.0.val() == 0,
+{
+    let r = c.finalize(x, y, sig);
+    assert(r is Err);
+}
